@@ -565,3 +565,26 @@ Definition c12_ok (reg0 : list (Z * Z)) (qs : list request) (obs : list obs_step
   end.
 
 Definition req_wf (q : request) : bool := negb (bytes_eqb (q_url q) []).
+
+(* ------------------------------------------------------------------ client-visible events
+   (used to state "only through DESCRIBE then SETUP then PLAY") *)
+Definition ev_of (q : request) (o : obs_step) : list (meth * Z) :=
+  match o_resps o with
+  | [r] => [(q_meth q, code_class (rs_code r))]
+  | _ => []
+  end.
+Fixpoint events (qs : list request) (os : list obs_step) : list (meth * Z) :=
+  match qs, os with
+  | q :: qs', o :: os' => ev_of q o ++ events qs' os'
+  | _, _ => []
+  end.
+(* the methods [ms] were answered 2xx, in this order (not necessarily adjacent) *)
+Fixpoint subseq (ms : list meth) (tr : list (meth * Z)) {struct tr} : Prop :=
+  match ms with
+  | [] => True
+  | m :: ms' =>
+      match tr with
+      | [] => False
+      | x :: tr' => (meth_eqb (fst x) m = true /\ snd x = 2 /\ subseq ms' tr') \/ subseq (m :: ms') tr'
+      end
+  end.
